@@ -222,4 +222,20 @@ theorem C14_leaf_EncodeMessage (b : List UInt8) (msg : S_Message) (h6 : msg.Time
       List.map_append, List.map_drop]
     rw [← bytesN, encBytes_eq msg h6, hml]
 
+/-- non-vacuity through the generated definitions: a message with distinct bytes in every field
+    (negative correction field and log interval) encoded into a 46-byte buffer and decoded back; a
+    43-byte buffer panics; a 43-byte input is refused with the size error -/
+def exMsg : S_Message :=
+  { SdoIDMessageType := 0x12, PTPVersion := 0x02, MessageLength := 0x0304, DomainNumber := 5, MinorSdoID := 6, FlagField := 0x0708,
+    CorrectionField := -2, MessageTypeSpecific := 0x11121314, SourcePortIdentity := ⟨0x2122232425262728, 0x3132⟩,
+    SequenceID := 0x4142, ControlField := 0x51, LogMessageInterval := -3, Timestamp := ⟨[1, 2, 3, 4, 5, 6], 0x61626364⟩ }
+def zeroMsg : S_Message :=
+  { SdoIDMessageType := 0, PTPVersion := 0, MessageLength := 0, DomainNumber := 0, MinorSdoID := 0, FlagField := 0,
+    CorrectionField := 0, MessageTypeSpecific := 0, SourcePortIdentity := ⟨0, 0⟩,
+    SequenceID := 0, ControlField := 0, LogMessageInterval := 0, Timestamp := ⟨[0, 0, 0, 0, 0, 0], 0⟩ }
+example : ((csptp_EncodeMessage (List.replicate 46 9) exMsg).bind fun b => (csptp_DecodeMessage zeroMsg b).map fun r => (mv r.1, r.2, b.drop 44)) =
+    some (mv exMsg, false, [9, 9]) := by decide
+example : csptp_EncodeMessage (List.replicate 43 9) exMsg = none := by decide
+example : (csptp_DecodeMessage zeroMsg (List.replicate 43 9)).map (·.2) = some true := by decide
+
 end ScionTime.LeafTieC14Csptp
